@@ -89,6 +89,10 @@ func genSnap(r *Rng, tier string, idx int, prop string) *Plan {
 	snaps := r.Range(1, 3)
 	for sidx := 0; sidx < snaps; sidx++ {
 		writes(r.Range(1, nmax))
+		if sidx > 0 && r.Chance(0.25) {
+			// everything is deleted: the next snapshot is that of an empty keyspace
+			p.Ops = append(p.Ops, Op{C: r.Intn(2), Args: []string{"FLUSHALL"}})
+		}
 		if prop == "C10" && r.Chance(0.6) {
 			mode := Pick(r, []string{"kill", "kill", "power", "power", "eio", "enospc"})
 			p.Ops = append(p.Ops, Op{Kind: "crash", N: int64(r.Intn(11)), S: mode})
@@ -96,7 +100,7 @@ func genSnap(r *Rng, tier string, idx int, prop string) *Plan {
 		p.Ops = append(p.Ops, Op{Kind: "save"})
 		if p.Profile == "conc" {
 			// writers released inside the snapshot
-			for i, n := 0, r.Range(1, 3); i < n; i++ {
+			for i, n := 0, r.Range(1, 4); i < n; i++ {
 				p.Ops = append(p.Ops, Op{Kind: "concwrite", C: r.Intn(2), Args: g.Cmd(r)})
 			}
 			p.Ops = append(p.Ops, Op{Kind: "join"})
@@ -582,6 +586,26 @@ func (a *snapRun) save(arm *Op, rest []Op) {
 		a.errSite = ""
 		return
 	}
+	if !a.disk.Fired && a.p.Profile != "conc" && a.o.Sig == "" {
+		// no fault was injected and no snapshot was taken: legitimate only if there is nothing new, i.e. the
+		// dataset is what the last snapshot holds (compared through the snapshot encoding's own projection, which
+		// cannot tell some value types apart)
+		proj := func(m map[string]string) map[string]string {
+			out := map[string]string{}
+			for k, v := range stripExpiredMap(m, nowMs()) {
+				out[k] = jsonProjection(v)
+			}
+			return out
+		}
+		var last map[string]string
+		if n := len(a.good); n > 0 {
+			last = a.good[n-1].data
+		}
+		if (len(a.good) > 0 || len(a.alts) == 0) && len(a.alts) == 0 && !mapsEqual(proj(state), proj(last)) && (len(a.good) > 0 || len(proj(state)) > 0) {
+			a.fail("save-skipped", fmt.Sprintf("SAVE took no snapshot although the dataset differs from what the last snapshot holds (%d snapshots so far): %s", len(a.good), DiffData(proj(state), proj(last), "now", "last snapshot", 4)))
+			return
+		}
+	}
 	if a.disk.Fired {
 		// the attempt failed with an injected error: the previous snapshot and LASTSAVE must be untouched
 		a.errSite = a.disk.FiredAt
@@ -610,7 +634,20 @@ func (a *snapRun) saveConc(rec *snapRec, rest []Op) {
 			a.skipped++
 			continue
 		}
-		c := s.NewEmbeddedClient(a.inst, fmt.Sprintf("w%d", nt))
+		// writers work in different logical databases (the embedded caller's and the TCP connections'), so that a
+		// state copy that is not ONE instant across databases shows
+		var c *Client
+		if (op.C+nt)%2 == 0 {
+			c = s.NewEmbeddedClient(a.inst, fmt.Sprintf("w%d", nt))
+		} else {
+			wasPass := s.passAll.Load()
+			s.passAll.Store(true)
+			c = s.NewTCPClient(a.inst, fmt.Sprintf("w%d", nt))
+			if db := a.p.K("tcpdb"); db != 0 {
+				c.DoSync("SELECT", strconv.FormatInt(db, 10))
+			}
+			s.passAll.Store(wasPass)
+		}
 		a.names = append(a.names, "||"+strings.ToUpper(op.Args[0]))
 		c.Start(op.Args, func(r Result) { results = append(results, r) })
 		nt++
